@@ -28,6 +28,27 @@ fn param(prefixes: &[Vec<bool>]) -> Poplar1AggregationParam {
     Poplar1AggregationParam::try_from_prefixes(prefixes.iter().map(|p| IdpfInput::from_bools(p)).collect()).unwrap()
 }
 
+/// The same parameter built from candidate prefixes whose bit storage does not start at bit 0 of a word
+/// (public `From<BitBox>`; such inputs are `==` to the aligned ones). Candidate j gets offset [1,0,5,2,7][j % 5].
+fn param_unaligned(prefixes: &[Vec<bool>]) -> Poplar1AggregationParam {
+    use bitvec::prelude::*;
+    let inputs: Vec<IdpfInput> = prefixes
+        .iter()
+        .enumerate()
+        .map(|(j, p)| {
+            let offset = [1usize, 0, 5, 2, 7][j % 5];
+            let mut bv: BitVec<usize, Lsb0> = BitVec::new();
+            for i in 0..offset {
+                bv.push(i % 2 == 0);
+            }
+            bv.extend(p.iter().copied());
+            let bb: BitBox<usize, Lsb0> = BitBox::from_bitslice(&bv[offset..]);
+            IdpfInput::from(bb)
+        })
+        .collect();
+    Poplar1AggregationParam::try_from_prefixes(inputs).unwrap()
+}
+
 /// Every non-empty sorted prefix set at `level` with at most `max_set` elements (plus the full set).
 fn sets_at(level: usize, max_set: usize) -> Vec<Vec<Vec<bool>>> {
     let n = 1usize << (level + 1);
@@ -100,6 +121,7 @@ fn small(run: &Run, bits: usize, max_set: usize, tapes: &[(String, Tape)], batch
     let n_inputs = 1u64 << bits;
     let params: Vec<(usize, Vec<Vec<bool>>)> = (0..bits).flat_map(|l| sets_at(l, max_set).into_iter().map(move |s| (l, s))).collect();
     let real: Vec<Poplar1AggregationParam> = params.iter().map(|(_, s)| param(s)).collect();
+    let real_un: Vec<Poplar1AggregationParam> = params.iter().map(|(_, s)| param_unaligned(s)).collect();
     let verified = AtomicU64::new(0);
     // outputs[tape][input][param] = both output shares
     let store: Mutex<HashMap<(usize, u64, usize), Vec<Poplar1FieldVec>>> = Mutex::new(HashMap::new());
@@ -132,6 +154,17 @@ fn small(run: &Run, bits: usize, max_set: usize, tapes: &[(String, Tape)], batch
                         Err(e) => {
                             run.fail(&format!("poplar1/bits={bits}/level={level}/unshard"), &format!("Poplar1(bits={bits}): {e}"), json!({"bits": bits, "input": input, "level": level, "prefixes": set}));
                             return;
+                        }
+                    }
+                    // the same parameter held in memory with unaligned candidate storage (equal value)
+                    if set.len() >= 2 && ti == 0 {
+                        verified.fetch_add(1, Ordering::Relaxed);
+                        match verify(&vdaf, &rep, &vk, &real_un[pi]) {
+                            Ok(outs_un) if outs_un == outs => {}
+                            other => {
+                                run.fail(&format!("poplar1/bits={bits}/level={level}/unaligned_param"), &format!("Poplar1(bits={bits}): input {:?}, level {level}, prefixes {:?}: an equal aggregation parameter whose candidate prefixes are stored unaligned gives {} (tape {tname})", input, set, match other { Ok(_) => "different output shares".to_string(), Err(f) => format!("a rejection: {:?}", f) }), json!({"bits": bits, "input": input, "level": level, "prefixes": set, "tape": tname}));
+                                return;
+                            }
                         }
                     }
                     store.lock().unwrap().insert((ti, iv, pi), outs);
